@@ -2,11 +2,13 @@ package checks
 
 import (
 	"fmt"
+	"regexp"
 	"strings"
 	"time"
 
 	"pmc/internal/comp"
 	"pmc/internal/harness"
+	"pmc/internal/model"
 )
 
 // C13 — using a constant is the same as writing its value.
@@ -287,8 +289,72 @@ func runC13(tier string) int {
 		r.NotExhaustive("long definition lists not completed")
 	}
 	r.Set("long_max_constants", maxK)
+	// the property lifted over the control-flow program families: every flag / var / trainer operand, comparison
+	// value and case value of every program replaced by a constant defined in the file header
+	plans, swN := enginePlans(tier)
+	forEachEngineProgram(r, plans, swN, func(w int, p engineProgram) {
+		src := model.Print([]*model.Script{p.Script})
+		ref := comp.Compile(src, comp.Opts{Optimize: true})
+		if ref.Err != nil || ref.Panic != "" {
+			return
+		}
+		withConsts := c13Constify(src)
+		res := comp.Compile(withConsts, comp.Opts{Optimize: true})
+		r.Add("evaluations", 1)
+		r.Add("family_programs_with_constants", 1)
+		if withConsts != src {
+			r.Add("nontrivial", 1)
+		}
+		if res.Err != nil || res.Panic != "" || res.Out != ref.Out {
+			r.Report(harness.Violation{Sig: "C13:family", Summary: fmt.Sprintf("%s: writing operands and values as constants changes the result (%v %s): %s\n  source: %q", p.Desc, res.Err, firstLine(res.Panic), firstDiff(res.Out, ref.Out), clip(withConsts, 600)),
+				Replay: map[string]interface{}{"source": withConsts, "substituted_source": src, "output": res.Out, "substituted_output": ref.Out},
+				Recheck: func() bool {
+					r2 := comp.Compile(withConsts, comp.Opts{Optimize: true})
+					return r2.Err != nil || r2.Out != ref.Out
+				}})
+		}
+	})
 	r.Assume("values with parentheses are only used at sites where nested parentheses can be written out literally (command arguments, value(...))",
 		"const lines are replaced by blank lines so that line markers stay comparable")
 	return r.Finish(r.Get("evaluations"), r.Get("nontrivial"),
-		"15 definition sets (single token, multi-token, parenthesised, const from const two levels deep, hex, negative, multi-byte value; constant names with a non-ASCII first letter, a non-ASCII letter inside, a leading underscore, lower case with digits) x every single use site, every pair and triple (thorough: quadruple) and all 26 documented use sites (five of them inside a larger expression) at once (command argument incl. nested, flag/var/defeated operands, comparison values incl. value(), switch operand and case value, AutoVar argument and comparison, goto target, map-script table var/value and inline body, mart item) + 8 non-positions (command name, movement step, label, moves() step, text content, script/text/mapscripts names, raw) + use before definition + redefinition + chains of K constants and K independent constants for every K up to the bound in the coverage; outputs compared byte for byte with line markers on, optimize on/off; non-trivial = multi-token or chained definition")
+		"15 definition sets (single token, multi-token, parenthesised, const from const two levels deep, hex, negative, multi-byte value; constant names with a non-ASCII first letter, a non-ASCII letter inside, a leading underscore, lower case with digits) x every single use site, every pair and triple (thorough: quadruple) and all 26 documented use sites (five of them inside a larger expression) at once (command argument incl. nested, flag/var/defeated operands, comparison values incl. value(), switch operand and case value, AutoVar argument and comparison, goto target, map-script table var/value and inline body, mart item) + 8 non-positions (command name, movement step, label, moves() step, text content, script/text/mapscripts names, raw) + use before definition + redefinition + chains of K constants and K independent constants for every K up to the bound in the coverage; outputs compared byte for byte with line markers on, optimize on/off; also every program of the control-flow families (C01 / C03 / C04 bounds) with every operand, comparison value and case value written as a constant; non-trivial = multi-token or chained definition")
+}
+
+var (
+	c13OperandRe = regexp.MustCompile(`\b(flag|var|defeated)\((\w+)\)`)
+	c13CaseRe    = regexp.MustCompile(`\bcase (\d+):`)
+	c13CmpRe     = regexp.MustCompile(`(==|!=|<=|>=|<|>) (\d+)\b`)
+)
+
+// c13Constify replaces operand names, comparison values and case values by constants and prepends their definitions.
+func c13Constify(src string) string {
+	defs := map[string]string{}
+	var order []string
+	def := func(name, val string) string {
+		if _, ok := defs[name]; !ok {
+			defs[name] = val
+			order = append(order, name)
+		}
+		return name
+	}
+	out := c13OperandRe.ReplaceAllStringFunc(src, func(m string) string {
+		sm := c13OperandRe.FindStringSubmatch(m)
+		return sm[1] + "(" + def("K_"+sm[2], sm[2]) + ")"
+	})
+	out = c13CaseRe.ReplaceAllStringFunc(out, func(m string) string {
+		sm := c13CaseRe.FindStringSubmatch(m)
+		return "case " + def("N_"+sm[1], sm[1]) + ":"
+	})
+	out = c13CmpRe.ReplaceAllStringFunc(out, func(m string) string {
+		sm := c13CmpRe.FindStringSubmatch(m)
+		return sm[1] + " " + def("N_"+sm[2], sm[2])
+	})
+	if len(order) == 0 {
+		return src
+	}
+	var head strings.Builder
+	for _, n := range order {
+		head.WriteString("const " + n + " = " + defs[n] + "\n")
+	}
+	return head.String() + out
 }
